@@ -30,6 +30,8 @@ THEOREMS = [
     "GoaktVerif.C27.exitClean_step",
     "GoaktVerif.C27.C27_close_complete",
     "GoaktVerif.C27.C27_partial_close",
+    "GoaktVerif.C27.GC.ginv_run",
+    "GoaktVerif.C27.C27_single_coalescer",
     "GoaktVerif.C27.C27_fq_has_slack",
     "GoaktVerif.C27.C27_fq_cap_tie",
 ]
@@ -37,10 +39,21 @@ GO2LEAN = {"targets": [
     {"kind": "const", "file": "actor/remote_server.go", "name": "coalescedFailureQueueSize", "lean": "coalescedFailureQueueSize"},
     {"kind": "const", "file": "actor/defaults.go", "name": "remoteSendCoalescingMaxBatch", "lean": "remoteSendCoalescingMaxBatch"},
 ]}
+# call order of the double-checked creation in getCoalescer and of Close, re-extracted from the source on
+# every run (the model GC.gstep mirrors it: lookup, [NetClient], lock, lookup again, create+Set, unlock)
+FACTS = [{
+    "file": "internal/remoteclient/client.go",
+    "suffixes": "coalescers.Get,coalescers.Set,coalescersMu.Lock,coalescersMu.Unlock,coalescers.Range,coalescers.Reset,c.close,c.submit",
+    "expect": {
+        "client.getCoalescer": ["coalescers.Get", "coalescersMu.Lock", "coalescersMu.Unlock", "coalescers.Get", "coalescers.Set"],
+        "client.Close": ["coalescers.Range", "c.close", "coalescers.Reset"],
+        "client.RemoteTell": ["c.submit"],
+    },
+}]
 INPKG = ["internal/remoteclient/zz_verif_c27.go", "actor/zz_verif_c27.go"]
 TIMEOUT = 900
 MANIFEST = {
-    "level_text": "Kernel-checked theorems over a small-step interleaving model of coalescer.submit/run/close and the failure fan-out, for ALL schedules of any length with any number of sending goroutines, any transport outcome per batch, any resolution of Go's random select, close and shutdown at any point: global FIFO (flushed batches ++ writer batch ++ channel = acceptance log, C27_fifo), per-thread send order and at-most-once (C27_order), nothing reaches the transport unaccepted (C27_no_phantom), and an exact account of where every accepted message is in a quiescent state (C27_loss_sites). The accounting clause of the property is REFUTED for the current code (C27_refuted; open findings C27-F3 submit racing close, C27-F2 fan-out drops; C27-F1 close abandoning queued batches was fixed by 305110c and is a regression corpus + theorem witnessClose_facts) and proved under the guards no-close and no-handler-drop (C27_partial) and, for schedules WITH close, under the guard that no submit call straddles the close (C27_close_complete: the writer exits only on an empty channel; C27_partial_close). The model is tied to the code by running the real Client.RemoteTell / coalescer goroutine / Client.Close against a gate-controlled in-process proto server and comparing batch boundaries, submit results, handler calls and the channel leftover with the model's output set.",
+    "level_text": "Kernel-checked theorems over a small-step interleaving model of coalescer.submit/run/close and the failure fan-out, for ALL schedules of any length with any number of sending goroutines, any transport outcome per batch, any resolution of Go's random select, close and shutdown at any point: global FIFO (flushed batches ++ writer batch ++ channel = acceptance log, C27_fifo), per-thread send order and at-most-once (C27_order), nothing reaches the transport unaccepted (C27_no_phantom), and an exact account of where every accepted message is in a quiescent state (C27_loss_sites). The accounting clause of the property is REFUTED for the current code (C27_refuted; open findings C27-F3 submit racing close, C27-F2 fan-out drops; C27-F1 close abandoning queued batches was fixed by 305110c and is a regression corpus + theorem witnessClose_facts) and proved under the guards no-close and no-handler-drop (C27_partial) and, for schedules WITH close, under the guard that no submit call straddles the close (C27_close_complete: the writer exits only on an empty channel; C27_partial_close). client.getCoalescer's double-checked creation is modelled too (C27_single_coalescer: at most one coalescer per destination under every interleaving of racing first senders), tied by a call-order fact re-extracted from client.go and by `gc` cases (n goroutines racing the first send behind the held creation mutex: distinct coalescers returned, flushes in flight at once, per-sender order). The model is tied to the code by running the real Client.RemoteTell / coalescer goroutine / Client.Close against a gate-controlled in-process proto server and comparing batch boundaries, submit results, handler calls and the channel leftover with the model's output set.",
     "level_note": "partial: (1) the tie is a differential on controller-serialised schedules (the controller acts only while the writer is parked in a flush or idle); finer interleavings of submit's three steps with the writer (e.g. the submit-racing-close witness) exist only in the model; (2) enqueueCoalescedFailure / drainCoalescedFailures (actor/remote_server.go) are driven on a real started actor system through an in-package accessor (queue replaced by a small one without drain goroutine so that fill/drop is deterministic; dead letters read from the event stream) separately from the coalescer; the end-to-end chain coalescer -> handler -> dead letter is composed in the model only; dead-letter publication itself is C18; (3) the remote node's in-order handling of a batch (remoteTellHandler's loop, handleConn's sequential read loop) and TCP are assumptions; (4) a flush that fails after the remote node already processed it is both delivered and dead-lettered (at-most-once is about the coalescer never re-sending).",
     "technique": "Lean 4 proof (inductive invariants over a small-step interleaving semantics) + model/implementation differential on gate-controlled runs of the real goroutines",
 }
@@ -51,7 +64,7 @@ TRUSTED = [
     "the fan-out accessor harness/inpkg/actor/zz_verif_c27.go swaps the queue for a small one (the real capacity is read back and compared with the regenerated constant)",
     "tools/go2lean extraction of coalescedFailureQueueSize and remoteSendCoalescingMaxBatch",
 ]
-RULE = ("controller scripts over maxBatch 1..8, handler on/off, 1..3 sending threads, 4..40 ops mixing sends, blocked sends, cancels, "
+RULE = ("gc: 2..6 goroutines racing the first send to a fresh destination; fq: fan-out scripts; controller scripts over maxBatch 1..8, handler on/off, 1..3 sending threads, 4..40 ops mixing sends, blocked sends, cancels, "
         "releases with success / proto error / dropped connection, close mid-flight with pending channel content and sends after close; "
         "non-trivial = at least one batch reached the transport; distinct by (case, output)")
 
@@ -139,6 +152,10 @@ def _gen_fq(rng):
     return "fq %d %s" % (size, " ".join(ops))
 
 
+def _structured_gc():
+    return ["gc 2 1", "gc 2 2", "gc 3 2", "gc 4 2", "gc 4 4", "gc 6 3"]
+
+
 def _structured_fq():
     return ["fq 256 " + " ".join(["e1"] * 20), "fq 2 e1 e2 e3 e1", "fq 3 e2 d e1 u e1", "fq 4 e2 e2"]
 
@@ -146,17 +163,27 @@ def _structured_fq():
 def gen_cases(rng, tier):
     n = 140 if tier == "quick" else 2500
     m = 25 if tier == "quick" else 400
-    return _structured() + _structured_fq() + [_gen_one(rng) for _ in range(n)] + [_gen_fq(rng) for _ in range(m)]
+    return _structured() + _structured_gc() + _structured_fq() + [_gen_one(rng) for _ in range(n)] + [_gen_fq(rng) for _ in range(m)]
 
 
 def search_cases(rng, tier):
     n = 600 if tier == "quick" else 4000
-    return _structured() + _structured_fq() + [_gen_one(rng, big=(i % 3 == 0)) for i in range(n)] + [_gen_fq(rng) for _ in range(60)]
+    return _structured() + _structured_gc() * 4 + _structured_fq() + [_gen_one(rng, big=(i % 3 == 0)) for i in range(n)] + [_gen_fq(rng) for _ in range(60)]
+
+
+def _gc_canon(line):
+    """order-independent part of a gc output: the head and the sorted set of messages"""
+    head, _, body = line.partition(" | ")
+    ids = sorted(m for w in body.split()[1:] for m in w.split(":")[0].split(","))
+    return head + " | " + " ".join(ids)
 
 
 def compare(case, impl, model):
     if impl == "STALL" or model is None:
         return None
+    if case.startswith("gc") and " | " in impl and " | " in model:
+        a, b = _gc_canon(impl), _gc_canon(model)
+        return None if a == b else "impl=%r model=%r (canonical: %r vs %r)" % (impl, model, a, b)
     if impl in model.split(" || "):
         return None
     return "implementation output is not one of the %d outputs the model allows: impl=%r model=%r" % (
@@ -197,6 +224,18 @@ def oracle(case, impl, judge):
         return None
     if judge is not None:
         return None if judge.startswith("ok") else judge
+    if case.startswith("gc"):
+        if " | B " not in impl:
+            return "bad unparsable output: " + impl
+        flushed = [m for w in impl.split(" | B ")[1].split() for m in w.split(":")[0].split(",")]
+        n = int(case.split()[1])
+        for t in range(n):
+            mine = [m for m in flushed if m.split(".")[0] == str(t)]
+            if mine != ["%d.0" % t, "%d.1" % t][:len(mine)] or len(set(mine)) != len(mine):
+                return "bad order: a thread's messages reached the transport out of send order or twice"
+            if len(mine) != 2:
+                return "bad silently-dropped: an accepted message never reached the remote node"
+        return None
     if case.startswith("fq"):
         total = sum(int(o[1:]) for o in case.split()[2:] if o.startswith("e"))
         dead = [d for d in impl.split("dead=")[1].split(",") if d] if "dead=" in impl else []
@@ -256,12 +295,16 @@ def classify(case, impl, why):
 
 
 def is_trivial(case, impl):
+    if case.startswith("gc"):
+        return " | B " not in impl
     if case.startswith("fq"):
         return "dead=" not in impl or impl.endswith("dead=")
     return (not impl) or impl.startswith(("bad-case", "HARNESS", "STALL", "CRASH", "panic")) or " | B  | " in impl
 
 
 def tag(case, impl):
+    if case.startswith("gc"):
+        return "gc:n" + case.split()[1]
     if case.startswith("fq"):
         return "fq:" + ("drop" if ("d" in case.split()[2:]) else "fill")
     f = case.split()
@@ -280,6 +323,10 @@ def tag(case, impl):
 
 def shrink(case):
     f = case.split()
+    if f[0] == "gc":
+        if int(f[1]) > 2:
+            yield "gc %d %s" % (int(f[1]) - 1, f[2])
+        return
     k = 2 if f[0] == "fq" else 3
     head, ops = f[:k], f[k:]
     for i in range(len(ops)):
